@@ -294,12 +294,14 @@ PROPS["C04"] = dict(
         "model coq/C04/Model.v of the planning phase and statement emission of turtle/src/serializer/_pretty.rs and of get_checked_prefixed_pair (hand-written, terms interned by the harness modulo Term::eq in Term::cmp order)",
         "INTEGER, DECIMAL, DOUBLE, BOOLEAN, PN_LOCAL regular expressions re-generated from _pretty.rs on every run (lib/regex_turtle2coq.py); Turtle productions [19]-[21], PN_LOCAL etc. transcribed by hand (C04/Grammar.v)",
         "TEXT OF A TERM: coq/C04/TermText.v transcribes write_term / write_non_list_term / write_iri / write_plain_iri / write_literal of _pretty.rs on bytes (nt::quoted_string through its C03 model; Iri::new is a parameter of the model, instantiated in the correspondence run with C09's regenerated IRI regex); coq/C04/TermRead.v is a reference reader written by hand from the W3C Turtle grammar (tokens = the regular expressions of Grammar.v / TermGrammar.v cut by a generic longest-match function; IRIREF, STRING_LITERAL_QUOTE, LANGTAG by the recursive readers of C03); the term-level round trip is proved for all terms without variables, all prefix maps with valid distinct prefixes and all admissible continuations, and every term case of the run compares the real bytes of the term with the model and re-reads them with the reference reader inside Coq",
-        "the text layout AROUND terms (new lines, indentation, `;` `,` `[ ]` `( )` `{| |}` GRAPH blocks, PREFIX lines), Rio's streaming writer and sophia's Turtle/TriG parsers are exercised by the oracle, not modelled; for whole datasets the tie to the writer is plan-level (labels, number of ( and [)",
+        "TEXT OF A DOCUMENT, for the datasets that need no abbreviation of blank nodes (every blank node subject/object labelled by the plan, no annotated quoted subject): coq/C04/DocText.v transcribes prettify / write_prefixes / write_all / next_graph / write_graph / write_tree / write_properties / write_objects / write_object / write_newline / indent / unindent of _pretty.rs as a state (output, indentation string) threaded through them, generic in the encoding (bytes / code points), terms by TermText.v; coq/C04/DocRead.v is a reference reader of DOCUMENTS written by hand from the W3C Turtle / TriG grammars (PREFIX, GRAPH blocks, predicateObjectList, objectList, `a`, white space and comments; key words need a following white space). The round trip read_doc (write_doc d) = the quads stated is proved for all such datasets, prefix maps and white-space indentations (piece by piece), on code points and on bytes, and the stated quads are proved to be a permutation of the store (one for one, graph names and subjects up to Term::eq) for a store in BTreeSet order. Every document case of the run compares the WHOLE real output byte for byte with the model (plan = Model.make_plan on the interned dataset, inside Coq), evaluates the hypotheses (store order included) and re-reads the real bytes with the reference reader",
+        "the text layout around terms for datasets OUTSIDE that class (`[ ]` `( )` `{| |}`, blank nodes cut loose), Rio's streaming writer and sophia's Turtle/TriG parsers are exercised by the oracle, not modelled; for those datasets the tie to the writer is plan-level (labels, number of ( and [)",
         "accounting (every quad emitted exactly once) is a verified boolean check evaluated per generated case, not a universal theorem",
     ],
     assumptions=["strict RDF / RDF-star input, absolute IRIs (no backslash), distinct prefixes, indentation made of Turtle white space",
                  "term theorem: IRIs without the characters IRIREF excludes, labels = BLANK_NODE_LABEL, tags = LANGTAG of the Turtle grammar (sophia's LanguageTag also accepts a digit in the first subtag, e.g. a1: outside), no variables; the oracle of the term stream is applied to absolute IRIs and well-formed BCP47 tags only (Rio's parser needs a base for relative IRIs and refuses other tags)",
-                 "rdf:first and rdf:rest are distinct terms"],
+                 "rdf:first and rdf:rest are distinct terms",
+                 "document theorem: `labelled` is a parameter of the text model (a boolean class hypothesis on it; the correspondence run computes it with the model of build_labelled); namespaces of the prefix map without the characters IRIREF excludes (they are `Iri`s); the exactness part needs the store in BTreeSet order and the Term contract (no untagged literal with datatype rdf:langString) on graph names and subjects; the stated quads spell a graph name / subject like the first quad of their group (equal to the others' modulo Term::eq, i.e. language tag case inside quoted subjects)"],
 )
 
 PROPS["C16"] = dict(
